@@ -3,7 +3,7 @@ _TYPES = '{"ollama", "vllm", "vllm-mlx", "sglang", "lm-studio", "llamacpp", "lem
 
 
 def _pg(ep, prefixes, types, **kw):
-    p = {"EP": ep, "Prefixes": prefixes, "Types": types, "Focus": "FALSE"}
+    p = {"EP": ep, "Prefixes": prefixes, "Types": types, "Focus": "FALSE", "Strats": '{"plain"}'}
     p.update(kw)
     return {"module": "Provider", "cfg": "Provider_gen.cfg", "params": p}
 
@@ -16,12 +16,17 @@ _PAIRS = dict(_pg('{"e1"}', _PREFIXES, _TYPES), always=True)
 _FOCUS = dict(_pg('{"e1", "e2", "e3"}', '{"ollama", "vllm"}', '{"ollama", "vllm", "lm-studio"}', Focus="TRUE"), always=True)
 
 
+# the lenient fallback of the discovery routing strategy (fallback "all", refresh on miss, unknown model) on a
+# provider route: it may only fall back to the provider's own healthy endpoints
+_LENIENT = dict(_pg('{"e1", "e2"}', '{"ollama", "vllm", "openai"}', '{"ollama", "vllm"}', Strats='{"disc_all"}'), always=True)
+
+
 def register(PROPS, HARNESS_PKGS):
     part = {
         "name": "provider",
         "mc": [{"module": "Provider", "cfg": "Provider_mc.cfg"}],
-        "quick": {"gen": [_pg('{"e1", "e2"}', _PREFIXES, _TYPES), _PAIRS, _FOCUS], "sample": 400},
-        "thorough": {"gen": [_pg('{"e1", "e2", "e3"}', _PREFIXES, _TYPES), _PAIRS, _FOCUS,
+        "quick": {"gen": [_pg('{"e1", "e2"}', _PREFIXES, _TYPES), _PAIRS, _FOCUS, _LENIENT], "sample": 400},
+        "thorough": {"gen": [_pg('{"e1", "e2", "e3"}', _PREFIXES, _TYPES), _PAIRS, _FOCUS, _LENIENT,
                              _pg('{"e1", "e2", "e3"}', _PREFIXES, _TYPES, Focus="TRUE")], "sample": 5000},
         "pkg": "internal/app", "test": "TestVerif_Provider",
         "harness_files": ["stack_test.go", "dispatch_test.go", "routing_test.go", "provider_test.go"],
